@@ -5,7 +5,10 @@ package signers
 import (
 	"bytes"
 	"io"
+	"net/url"
 	"os"
+
+	"github.com/spf13/cobra"
 )
 
 // H09.default-transform: the default client-side transform (the file itself)
@@ -37,4 +40,65 @@ func VH_C09_DefaultTransformRepeatable() {
 	got, err := io.ReadAll(r2)
 	vhAssert(err == nil && bytes.Equal(got, data), "second-upload-is-the-whole-file")
 	vhReach("reread") // vh:require reread
+}
+
+// H09.flags: the options a client sets reach the server unchanged: for a
+// signer with its own flags and the common ones, any subset of flags set on
+// the command line, serialised into the request query (ToQuery) and read back
+// on the server (FlagsFromQuery), gives the same value for every flag -
+// set ones keep their value (symbolic text), unset ones keep their default -
+// and a flag that belongs to another signer type is refused on the client.
+var vhFlagSigner, vhFlagOther *Signer
+
+func VH_C09_FlagsSurviveTheRequest() {
+	// the signer registry is process-global: register the two fake types once
+	if vhFlagSigner == nil {
+		vhFlagSigner = &Signer{Name: "fake09"}
+		vhFlagSigner.Flags().String("style", "plain", "")
+		vhFlagSigner.Flags().Bool("fancy", false, "")
+		vhFlagOther = &Signer{Name: "other09"}
+		vhFlagOther.Flags().Bool("only-for-other", false, "")
+		Register(vhFlagSigner)
+		Register(vhFlagOther)
+	}
+	s := vhFlagSigner
+	cmd := &cobra.Command{Use: "sign"}
+	MergeFlags(cmd)
+	cmdline := cmd.Flags()
+	const letters = "abcdefgh"
+	style := string([]byte{letters[int(vhU8("style-value"))%len(letters)], letters[int(vhU8("style-value"))%len(letters)]})
+	setStyle, setFancy, setForeign := vhBool("style-set"), vhBool("fancy-set"), vhBool("foreign-flag-set")
+	if setStyle {
+		vhAssert(cmdline.Set("style", style) == nil, "flag-known")
+	}
+	if setFancy {
+		vhAssert(cmdline.Set("fancy", "true") == nil, "flag-known")
+	}
+	if setForeign {
+		vhAssert(cmdline.Set("only-for-other", "true") == nil, "flag-known")
+	}
+	client, err := s.FlagsFromCmdline(cmdline)
+	if setForeign {
+		vhAssert(err != nil, "flag-of-another-signer-type-refused")
+		vhReach("refused") // vh:require refused
+		return
+	}
+	vhAssert(err == nil, "own-flags-accepted")
+	if err != nil {
+		return
+	}
+	q := url.Values{}
+	vhAssert(client.ToQuery(q) == nil, "query-built")
+	server, err := s.FlagsFromQuery(q)
+	vhAssert(err == nil, "query-read")
+	if err != nil {
+		return
+	}
+	wantStyle := "plain"
+	if setStyle {
+		wantStyle = style
+	}
+	vhAssert(client.GetString("style") == wantStyle && server.GetString("style") == wantStyle, "text-flag-same-on-both-sides")
+	vhAssert(client.GetBool("fancy") == setFancy && server.GetBool("fancy") == setFancy, "boolean-flag-same-on-both-sides")
+	vhReach("forwarded") // vh:require forwarded
 }
